@@ -53,7 +53,7 @@ def run_case(desc):
         return out
 
     def analyse():
-        an = SymmetryAnalyzer(c.at, symmetry_tol=sc.TOL)
+        an = sc.analyzer_for(c, desc, out)
         conv = an.get_conventional_system()
         return an, conv, an.get_wyckoff_sets_conventional(False), np.array(an.get_wyckoff_letters_conventional()), np.array(an.get_equivalent_atoms_conventional())
     ok, r = call(analyse)
